@@ -159,6 +159,11 @@ def _need(stats, keys):
 
 
 TABLES = {   # name -> (module, replay script, description of the enumerated space)
+    "nbc": ("NBC", "harness/replay_nbc.py",
+            "NBC.tla tables: every population of 2..MaxN distinct points of a 1-D lattice with ranks 0..2 (ties), factors "
+            "{1,3/2,2,3}, truncations {1/2,3/4,1}; 2-D grid populations with distinct ranks (threshold decided by integer "
+            "square-root brackets, undecided rows skipped); every row replayed on NearestBetterClustering under embeddings "
+            "(dimension 1-8, any axis, scales 1, 1/2, 1024, spacing 2^-30 around 1.0 and 2^20), permuted input orders, both directions"),
     "sprout": ("Sprout", "harness/replay_sprout.py",
                "Sprout.tla tables: DemeLimit (all rank vectors with ties x limits), LevelLimit (pooled candidates of root/A/B x "
                "occupancy incl. more active demes than the limit x L), SkipSameSprout (equal / different seeds of the same / another "
@@ -246,4 +251,23 @@ def c16(tier: str) -> PropResult:
         "objective values are abstracted to three classes w.r.t. the precision wrapper (optimum, exactly at eps, outside); "
         "the replay concretises them with opt=1.0, eps=0.25 (exactly representable boundary)",
         "wrappers are the five classes of pyhms/core/problem.py; user-defined wrappers are out of scope",
+    ])
+
+
+# ----------------------------------------------------------------------------- C15
+@prop("C15")
+def c15(tier: str) -> PropResult:
+    st, viols, info = _table_source("C15", "nbc", tier)
+    rep = st.get("replay", {})
+    cov = {"states": info["distinct_states"], "transitions": info["generated"],
+           "traces_validated_against_impl": info["table_rows"] or 0,
+           "samples": info["samples"] or [{"note": "no sample"}],
+           "evaluations": rep.get("evaluations", 0), "distinct_nontrivial": rep.get("nontrivial", 0),
+           "rule": info["space"] + "; non-trivial = populations of at least 3 individuals", "exhaustive": True,
+           "model": {"module": "NBC.tla", "cfg": info["cfg"],
+                     "laws": ["BestIsSeed", "SeedsAreKept", "ScaleTranslateInvariant", "MirrorInvariant", "FactorMonotone"]}}
+    return PropResult(viols, cov, [
+        "exact scales only (powers of two), so the oracle of TLC is exact; rows where the threshold test is an exact equality "
+        "are compared only when the float arithmetic is exact (m in {1,2,4}, dyadic factor), otherwise they are run for crashes only",
+        "populations up to MaxN on a lattice; sizes up to 60 and arbitrary real coordinates are not enumerated",
     ])
